@@ -37,6 +37,7 @@ structure Ctl where
   steps : Option Nat := none               -- `_steps_remaining`
   bps : List Bp := []
   pauseAt : List Nat := []                 -- on_event hooks calling pause() when processed = k
+  addAt : List (Nat × Bp) := []            -- on_event hooks calling add_breakpoint(b) when processed = k
 deriving Repr
 
 inductive Outcome
@@ -55,6 +56,10 @@ def Bp.hit {σ} [Probe σ] (s : St σ) (last : Ev) : Bp → Bool
 
 def Bp.oneShot : Bp → Bool
   | .time _ o | .count _ o | .kind _ o | .metric _ _ _ _ o | .countEq _ o => o
+
+/-- the breakpoints that on_event hooks register right after the delivery that makes `processed = n`
+    (`_notify_event_processed` runs the hooks before `_check_breakpoints` looks at the registry) -/
+def added (c : Ctl) (n : Nat) : List Bp := (c.addAt.filter (fun a => a.1 == n)).map (·.2)
 
 def shouldPause (c : Ctl) : Bool :=
   c.pauseReq || (match c.steps with | some n => n == 0 | none => false)
@@ -80,7 +85,8 @@ def ctlLoop {σ} [Probe σ] (m : Machine σ) (endT : Option Nat) : Nat → St σ
         else
           -- `_notify_event_processed`, then `_check_breakpoints`
           let c1 := { c with steps := c.steps.map (· - 1),
-                             pauseReq := c.pauseReq || c.pauseAt.contains s'.processed }
+                             pauseReq := c.pauseReq || c.pauseAt.contains s'.processed,
+                             bps := c.bps ++ added c s'.processed }
           let hits := c1.bps.filter (Bp.hit s' e)
           if hits.isEmpty then ctlLoop m endT fuel s' c1
           else (s', { c1 with bps := c1.bps.filter (fun b => !(b.hit s' e && b.oneShot)) }, .paused)
@@ -89,7 +95,7 @@ def ctlLoop {σ} [Probe σ] (m : Machine σ) (endT : Option Nat) : Nat → St σ
 def Ctl.resume (c : Ctl) : Ctl := { c with pauseReq := false, steps := none }
 /-- `control.step(n)` -/
 def Ctl.step (c : Ctl) (n : Nat) : Ctl := { c with pauseReq := false, steps := some n }
-/-- `control.reset()`: pause request and step budget are cleared, breakpoints and hooks stay registered -/
+/-- `control.reset()`: pause request and step budget are cleared, breakpoints and hooks (pausing and breakpoint-adding ones) stay registered -/
 def Ctl.reset (c : Ctl) : Ctl := { c with pauseReq := false, steps := none }
 
 inductive Cmd
@@ -99,6 +105,7 @@ inductive Cmd
   | bp (b : Bp)                 -- control.add_breakpoint
   | clear                       -- control.clear_breakpoints
   | pauseAt (k : Nat)           -- on_event hook: pause() when events_processed = k
+  | bpAt (k : Nat) (b : Bp)     -- on_event hook: add_breakpoint(b) when events_processed = k (while the loop runs)
   | reset                       -- control.reset()
   | sched (sp : Spec) (rel : Bool)   -- sim.schedule(Event(…)) from outside the loop; `rel`: timestamp relative to the clock
 deriving Repr
@@ -148,6 +155,7 @@ def Sess.apply {σ} [Probe σ] (m : Machine σ) (x : Ext σ) (endT : Option Nat)
   | .bp b => { z with c := { z.c with bps := z.c.bps ++ [b] } }
   | .clear => { z with c := { z.c with bps := [] } }
   | .pauseAt k => { z with c := { z.c with pauseAt := k :: z.c.pauseAt } }
+  | .bpAt k b => { z with c := { z.c with addAt := z.c.addAt ++ [(k, b)] } }
   | .go =>
     if z.started && !z.paused then z else
     let c0 := if z.started then z.c.resume else z.c
